@@ -150,13 +150,15 @@ pub struct State {
     pub per_key: HashMap<String, usize>,
     pub max_per_key: usize,
     pub stats: bool,
+    pub printed: usize,
+    pub max_total: usize,
 }
 
 thread_local! {
     static ST: RefCell<State> = RefCell::new(State {
         seed: 1, iters: 1000, prop: String::new(), config: String::new(), krate: String::new(), ty: String::new(),
         cur_prop: String::new(), input: Vec::new(), nfail: 0, hidden: 0, suppressed: 0, ncases: 0,
-        per_key: HashMap::new(), max_per_key: 3, stats: false,
+        per_key: HashMap::new(), max_per_key: 3, stats: false, printed: 0, max_total: 60,
     });
     static LAST_PANIC: RefCell<String> = RefCell::new(String::new());
 }
@@ -230,10 +232,11 @@ fn emit(prop: &str, what: &str, got: &str, want_: &str) {
         let key = format!("{}|{}|{}|{}", prop, s.krate, s.ty, what);
         let n = s.per_key.entry(key).or_insert(0);
         *n += 1;
-        if *n > s.max_per_key {
+        if *n > s.max_per_key || s.printed >= s.max_total {
             s.suppressed += 1;
             return;
         }
+        s.printed += 1;
         let mut inp = String::from("{");
         for (i, (k, v)) in s.input.iter().enumerate() {
             if i > 0 {
